@@ -15,6 +15,21 @@ theorem trace_append (c : Cfg) (s : St) (a b : Bytes) (hi : Inv s) :
     run c s (a ++ b) = ((run c (run c s a).1 b).1, (run c s a).2 ++ (run c (run c s a).1 b).2) :=
   run_append' c s a b hi
 
+/-- `binary.BigEndian.Uint32` of the four length bytes fits `uint32` … -/
+theorem be32_lt (b : Bytes) (h : b.length = 4) : be32 b < 2 ^ 32 := by
+  match b, h with
+  | [a, b, c, d], _ =>
+    have ha := a.toNat_lt; have hb := b.toNat_lt; have hc := c.toNat_lt; have hd := d.toNat_lt
+    simp only [be32, List.foldl_cons, List.foldl_nil]
+    omega
+
+/-- … and on every reachable state `actual < expecting`, so Go's wrapping `uint32` subtraction
+`d.expecting - uint32(d.actual)` is the exact difference the model computes in `Nat`. -/
+theorem need_no_wrap (s : St) (hi : Inv s) (he : s.expecting ≠ 0) (hb : s.expecting < 2 ^ 32) :
+    (s.expecting + 2 ^ 32 - s.actual % 2 ^ 32) % 2 ^ 32 = s.expecting - s.actual := by
+  have := (hi.2.2 he).1
+  omega
+
 /-- the hypothesis of `trace_append` holds initially and is preserved by `trace` -/
 theorem inv_reachable (c : Cfg) (chunks : List Bytes) (hs : c.isStream = true) :
     Inv (feedAll c init chunks).1 := by
